@@ -135,10 +135,15 @@ def make_name_clock():
 
 
 class TimeShim(types.ModuleType):
-    def __init__(self, world, site="time"):
+    def __init__(self, world, site="time", compress=True):
         super().__init__("time")
         self._w = world
         self._site = site
+        # compress=True: the sleep belongs to a POLL loop (lock acquisition): waking without any state change is
+        # pointless, so the sleeper is descheduled until something changed or nobody else can run.
+        # compress=False: a pure back-off sleep (commit retry, S3 retry): it ends by time alone, so the sleeper
+        # stays runnable (the sleep is just a scheduling point).
+        self._compress = compress
 
     def __getattr__(self, k):
         return getattr(_real_time, k)
@@ -158,11 +163,14 @@ class TimeShim(types.ModuleType):
         a = actor()
         sc = w.sched
         if sc is not None and a != "main" and a not in w.dead:
-            e0 = w.epoch
-            st = {"forced": False}
-            w.sleepers[a] = st
-            sc.yield_point(a, "sleep", until=lambda: w.epoch != e0 or st["forced"])
-            w.sleepers.pop(a, None)
+            if self._compress:
+                e0 = w.epoch
+                st = {"forced": False}
+                w.sleepers[a] = st
+                sc.yield_point(a, "sleep", until=lambda: w.epoch != e0 or st["forced"])
+                w.sleepers.pop(a, None)
+            else:
+                sc.yield_point(a, "sleep")
         w.clock.now_ms = smax(w.clock.peek(), wake_at)
 
 
@@ -392,16 +400,18 @@ class Env:
         SchedRLock.world = w
         StubParquetWriter.env = self
         ts = TimeShim(w)
+        ts_backoff = TimeShim(w, compress=False)
         rs = RandomShim()
         thr = _ThreadingShim()
         # clocks
         self._set(mm, "datetime", make_datetime_shim(w, "mm"))
         self._set(sm, "datetime", make_datetime_shim(w, "sm"))
         self._set(fm, "datetime", make_name_clock())
-        for m in (gcm, fl, lp, s3c):
+        for m in (gcm, fl, lp):
             self._set(m, "time", ts)
+        self._set(s3c, "time", ts_backoff)
         self._set(lp, "random", rs)
-        self._set(sys.modules, "time", ts)
+        self._set(sys.modules, "time", ts_backoff)  # Transaction.commit imports time inside the function (retry back-off)
         self._set(sys.modules, "random", rs)
         self._set(sys.modules, "datetime", DatetimeModShim(w))
         # ids
